@@ -90,6 +90,38 @@ def audit(files=None):
     return problems
 
 
+def deps_closure(pid):
+    """.v files Props/<pid>.v depends on (transitively), from coqdep.  Falls back to every file."""
+    try:
+        files = [os.path.relpath(p, COQDIR) for p in v_files()]
+        out = subprocess.run(['coqdep', '-Q', '.', LOGICAL] + files, cwd=COQDIR, stdout=subprocess.PIPE,
+                             stderr=subprocess.DEVNULL, text=True, timeout=120).stdout
+        dep = {}
+        for line in out.split('\n'):
+            if ':' not in line:
+                continue
+            lhs, rhs = line.split(':', 1)
+            tgt = [t for t in lhs.split() if t.endswith('.vo')]
+            if not tgt:
+                continue
+            src = tgt[0][:-3] + '.v'
+            dep[src] = [d[:-3] + '.v' for d in rhs.split() if d.endswith('.vo')]
+        start = os.path.join('Props', pid + '.v')
+        seen, todo = set(), [start]
+        while todo:
+            x = os.path.normpath(todo.pop())
+            if x in seen:
+                continue
+            seen.add(x)
+            todo.extend(dep.get(x, []))
+        res = [os.path.join(COQDIR, x) for x in sorted(seen) if os.path.exists(os.path.join(COQDIR, x))]
+        if os.path.join(COQDIR, start) in res:
+            return res
+    except Exception:
+        pass
+    return v_files()
+
+
 class _Lock(object):
     def __init__(self, name='build.lock'):
         os.makedirs(WORK, exist_ok=True)
